@@ -28,6 +28,9 @@ INT_W3 = [[[1, 0, 0], [0, 1, 0], [0, 0, 1]], [[1, -2, 4], [4, 1, -2], [-2, 4, 1]
           [[1, 0, 0], [0, 1, 0], [0, 0, 1], [1, 1, -1]]]
 
 
+_LAYOUT_RNG = np.random.default_rng(13)
+
+
 def oracle(Wi, X, exact=True, tol=0.0):
     """returns (set of non-dominated distinct value tuples, list of nondominated indices, ok)"""
     X = np.asarray(X)
@@ -60,7 +63,7 @@ def check_case(mon, order, Wi, X, cls, exact=True, do_naive=True):
         mon.count("dup_cases")
     case = {"W": np.asarray(Wi), "X": X}
     try:
-        res = order.get_pareto_set(X.copy())
+        res = order.get_pareto_set(gen.exotic(X, _LAYOUT_RNG) if _LAYOUT_RNG.random() < 0.2 else X.copy())
     except Exception as e:
         mon.violation(f"pareto:crash:{type(e).__name__}", f"get_pareto_set raised {e!r}", case)
         return
